@@ -180,16 +180,16 @@ type Effects struct {
 	// struct through which deep writes go (-1: unknown).
 	WritesParamShallow []bool
 	DeepFields         []map[int]bool
-	WritesGlobals   map[*ssa.Global]bool
-	WritesUnknown   bool
-	Sites           []WriteSite // direct write sites in this function (non-local targets)
-	FieldReads      map[string]bool
-	GlobalReads     map[*ssa.Global]bool
-	RetProv         []Prov
-	Unmodelled      map[string]bool
-	Calls           map[string]bool // external callees (by name), for source-of-nondeterminism rules
-	Spawns          bool
-	MapRanges       []ssa.Instruction // range over a map
+	WritesGlobals      map[*ssa.Global]bool
+	WritesUnknown      bool
+	Sites              []WriteSite // direct write sites in this function (non-local targets)
+	FieldReads         map[string]bool
+	GlobalReads        map[*ssa.Global]bool
+	RetProv            []Prov
+	Unmodelled         map[string]bool
+	Calls              map[string]bool // external callees (by name), for source-of-nondeterminism rules
+	Spawns             bool
+	MapRanges          []ssa.Instruction // range over a map
 	// StoresParam: bit i set when memory reachable from parameter i may be
 	// stored (retained) in non-local memory by this function or a callee.
 	StoresParam uint64
@@ -1077,6 +1077,14 @@ func (a *effectsAnalysis) callEffects(fn *ssa.Function, ef *Effects, site ssa.Ca
 				deep := i < len(sum.WritesParamDeep) && sum.WritesParamDeep[i]
 				if _, isLocal := addrRootAlloc(stripIface(full[i])); isLocal && !deep {
 					continue // the callee writes only the caller's local variable itself
+				}
+				if deep && i < len(sum.WritesParamShallow) && sum.WritesParamShallow[i] {
+					// the callee writes the argument's immediate pointee as well as
+					// what it reaches from there: record the shallow write too
+					if _, isLocal := addrRootAlloc(stripIface(full[i])); !isLocal {
+						p0 := a.argPointeeProv(full[i])
+						a.write(ef, p0, WriteSite{Instr: site, What: "call " + f.String(), Prov: p0})
+					}
 				}
 				p := a.argPointeeProv(full[i])
 				if al, isAl := stripIface(full[i]).(*ssa.Alloc); isAl && deep && i < len(sum.DeepFields) && len(sum.DeepFields[i]) > 0 && !sum.DeepFields[i][-1] {
